@@ -38,7 +38,38 @@ fn main() {
         Some("thorough") => Tier::Thorough,
         _ => Tier::Quick,
     };
-    let code = match args[1].as_str() {
+    let check = args[1].clone();
+    let code = match std::panic::catch_unwind(move || dispatch(&args, tier)) {
+        Ok(c) => c,
+        Err(_) => {
+            // a panic escaped every guarded call: decide whose it is by where it was raised
+            let (loc, msg) = common::GLOBAL_LAST_PANIC.lock().map(|g| g.clone()).unwrap_or_default();
+            let in_subject = loc.contains("libadsb_deku/") || loc.contains("rsadsb_common/");
+            let loc = ["libadsb_deku/", "rsadsb_common/"].iter().find_map(|m| loc.find(m).map(|i| loc[i..].to_string())).unwrap_or(loc);
+            if in_subject && check.starts_with('C') && check.len() == 3 {
+                // the subject panicked inside a call the check makes directly (e.g. through a verification hook)
+                let run = common::Run::new(&check, tier);
+                run.violation(common::Violation {
+                    oracle: "no-panic".into(),
+                    class: format!("subject-panic@{}", loc.rsplit('/').next().unwrap_or(&loc)),
+                    input: format!("(unguarded call of check {check}; first panic location {loc})"),
+                    expected: "the subject function returns".into(),
+                    observed: format!("panic: {msg} @ {loc}"),
+                });
+                run.sample(serde_json::json!({"unguarded_subject_panic": loc, "message": msg}));
+                run.finish("other", serde_json::json!({"evaluations": 1, "distinct_nontrivial": 1, "exhaustive": false,
+                    "explanation": "the check was cut short by a panic raised inside the subject in a call the check makes outside its per-case guard; that panic is reported as the violation, nothing else was explored in this run"}), vec![])
+            } else {
+                eprintln!("MACHINERY: harness panic at {loc}: {msg}");
+                2
+            }
+        }
+    };
+    std::process::exit(code);
+}
+
+fn dispatch(args: &[String], tier: Tier) -> i32 {
+    match args[1].as_str() {
         "C01" => c01::run(tier),
         "C02" => c02::run(tier),
         "C03" => c03::run(tier),
@@ -60,10 +91,10 @@ fn main() {
         "history" => e2::replay_history(&args[2]),
         "mkfeed" => tools::mkfeed(),
         "feed2table" => tools::feed2table(&args[2..]),
+        "render" => tools::render(),
         other => {
             eprintln!("unknown check {other}");
             2
         }
-    };
-    std::process::exit(code);
+    }
 }
